@@ -338,8 +338,34 @@ class Check:
             self.violations.append((dst, msg + " | " + last_line(out)))
             with open(dst[:-5] + ".log", "w") as f:
                 f.write(r["output"][-20000:] + "\n---- replay ----\n" + out[-20000:])
+        elif not HARNESSES[u["harness"]].get("threaded") and u.get("kind", "gen") == "gen" and self.rerun_fails(r, msg):
+            # the case alone passes, but the same generation run (a pure function of the seed) fails again at the same
+            # point: the failure needs state that earlier cases of the process left behind. That is a violation whose
+            # reproducible unit is the run, not the single case.
+            run = dst[:-5] + ".genrun.json"
+            with open(run, "w") as f:
+                json.dump(dict(note="fails only as part of this generation run (state carried over from earlier cases of the "
+                                    "same process); the last case is in 'case'", harness=u["harness"], mode=u["mode"],
+                               argv=[a if a != r["out"] else "<outdir>" for a in r["cmd"][1:]], case=os.path.basename(dst),
+                               message=msg), f, indent=1)
+            self.violations.append((run, msg + " | only within the generation run, not from the single case"))
         else:
             self.inconclusive.append("%s: failure in generation did not reproduce from %s (%s)" % (label, dst, msg))
+
+    def rerun_fails(self, r, msg):
+        """Runs the generation command of a failed unit once more; True if it fails again with the same message."""
+        out2 = r["out"] + ".again"
+        os.makedirs(out2, exist_ok=True)
+        cmd2 = [a.replace(r["out"], out2) if a == r["out"] else a for a in r["cmd"]]
+        try:
+            subprocess.run(cmd2, stdout=subprocess.DEVNULL, stderr=subprocess.DEVNULL, env=self.env, timeout=900, cwd=self.rundir)
+        except subprocess.TimeoutExpired:
+            return False
+        try:
+            st = json.load(open(os.path.join(out2, "stats.json")))
+        except (OSError, ValueError):
+            return False
+        return bool(st.get("fail_message")) and st.get("fail_message") == msg and os.path.exists(os.path.join(out2, "fail.case"))
 
     # ------------------------------------------------------------------ evidence
     def merged(self):
